@@ -39,7 +39,7 @@ def field_row(field):
         lower, upper = field["limits"]
         rule = "%s...%s" % (spell(lower, "1"), spell(upper, "9"))
         return ["F", field["name"], "", mark, "", "Decimal", rule]
-    length = "...%d" % field["len"][0] if field["len"] else ""
+    length = ("0...%d" if field.get("minzero") else "...%d") % field["len"][0] if field["len"] else ""
     rule = {"Text": "", "Choice": "a, b", "DateTime": "YYYY-MM-DD", "Pattern": "a*"}[kind]
     return ["F", field["name"], "", mark, length, kind, rule]
 
